@@ -475,6 +475,121 @@ fn search_history(case: &Value) -> Value {
     json!({"outcome":"ok","mismatch":mismatch,"folders":format!("{:?}", c.vaults()),"recount":format!("{:?}", rv)})
 }
 
+fn fs_record_of(v: &Value) -> EventRecord {
+    let secs = v["secs"].as_i64().unwrap();
+    let nanos = v["nanos"].as_u64().unwrap() as i64;
+    let t = time::OffsetDateTime::from_unix_timestamp(secs).unwrap() + time::Duration::nanoseconds(nanos);
+    let mut c = [0x11u8; 32];
+    c[0] = v["commit"].as_u64().unwrap() as u8;
+    let payload = hex::decode(v["payload"].as_str().unwrap_or("")).unwrap();
+    EventRecord::new(t.into(), CommitHash([0u8; 32]), CommitHash(c), payload)
+}
+
+fn commit_of_byte(b: u64) -> CommitHash {
+    let mut c = [0x11u8; 32];
+    c[0] = b as u8;
+    CommitHash(c)
+}
+
+fn leaves_hex(t: &sos_core::commit::CommitTree) -> Vec<String> {
+    t.leaves().unwrap_or_default().iter().map(hex::encode).collect()
+}
+
+/// Run a script of event-log operations on a real file-system event log, then re-open the file with a
+/// fresh instance and report both trees and the file bytes around the last operation.
+async fn fslog_script(case: &Value) -> Value {
+    use sos_core::events::{patch::Patch, EventLog};
+    let versioned = case["versioned"].as_bool().unwrap_or(false);
+    let path = tmp_path("fslog");
+    let _ = std::fs::remove_file(&path);
+    let account = sos_core::AccountId::random();
+    macro_rules! drive {
+        ($log:expr, $reopen:expr, $ev:ty) => {{
+            let mut log = $log;
+            let mut results = vec![];
+            let mut before = vec![];
+            for step in case["steps"].as_array().unwrap() {
+                before = std::fs::read(&path).unwrap();
+                if let Some(a) = step.get("apply") {
+                    let recs: Vec<EventRecord> = a.as_array().unwrap().iter().map(fs_record_of).collect();
+                    results.push(match log.apply_records(recs).await { Ok(_) => json!("ok"), Err(e) => json!(format!("err: {}", e)) });
+                } else if let Some(c) = step.get("rewind") {
+                    results.push(match log.rewind(&commit_of_byte(c.as_u64().unwrap())).await {
+                        Ok(r) => json!({"removed": r.iter().map(|x| x.commit().as_ref()[0]).collect::<Vec<u8>>()}),
+                        Err(e) => json!(format!("err: {}", e)),
+                    });
+                } else if step.get("clear").is_some() {
+                    results.push(match log.clear().await { Ok(_) => json!("ok"), Err(e) => json!(format!("err: {}", e)) });
+                } else if let Some(pc) = step.get("patch_checked") {
+                    // the proof is the head of a tree built from the given leaf bytes
+                    let mut other = sos_core::commit::CommitTree::new();
+                    let mut l: Vec<[u8; 32]> = pc["proof_of"].as_array().unwrap().iter().map(|b| commit_of_byte(b.as_u64().unwrap()).0).collect();
+                    other.append(&mut l);
+                    other.commit();
+                    let proof = other.head().unwrap();
+                    let recs: Vec<EventRecord> = pc["records"].as_array().unwrap().iter().map(fs_record_of).collect();
+                    let patch = Patch::<$ev>::new(recs);
+                    results.push(match log.patch_checked(&proof, &patch).await {
+                        Ok(sos_core::events::patch::CheckedPatch::Success(_)) => json!("success"),
+                        Ok(sos_core::events::patch::CheckedPatch::Conflict { .. }) => json!("conflict"),
+                        Err(e) => json!(format!("err: {}", e)),
+                    });
+                } else if let Some(ra) = step.get("replace_all") {
+                    let mut other = sos_core::commit::CommitTree::new();
+                    let mut l: Vec<[u8; 32]> = ra["checkpoint_of"].as_array().unwrap().iter().map(|b| commit_of_byte(b.as_u64().unwrap()).0).collect();
+                    other.append(&mut l);
+                    other.commit();
+                    let recs: Vec<EventRecord> = ra["records"].as_array().unwrap().iter().map(fs_record_of).collect();
+                    let diff = sos_core::events::patch::Diff::<$ev> { last_commit: None, patch: Patch::new(recs), checkpoint: other.head().unwrap() };
+                    results.push(match log.replace_all_events(&diff).await { Ok(_) => json!("ok"), Err(e) => json!(format!("err: {}", e)) });
+                }
+            }
+            let after = std::fs::read(&path).unwrap();
+            let memory = leaves_hex(log.tree());
+            let mut fresh = $reopen;
+            let reopened = match fresh.load_tree().await { Ok(_) => json!(leaves_hex(fresh.tree())), Err(e) => json!(format!("err: {}", e)) };
+            json!({"outcome":"ok","results":results,"memory":memory,"reopened":reopened,
+                   "file_before_last": hex::encode(before), "file_after": hex::encode(after)})
+        }};
+    }
+    let out = if versioned {
+        drive!(
+            sos_filesystem::AccountEventLog::<sos_filesystem::Error>::new_account(&path, account).await.unwrap(),
+            sos_filesystem::AccountEventLog::<sos_filesystem::Error>::new_account(&path, account).await.unwrap(),
+            AccountEvent
+        )
+    } else {
+        let lt = sos_core::events::EventLogType::Folder(uuid_of(7));
+        drive!(
+            FsLog::new_folder(&path, account, lt).await.unwrap(),
+            FsLog::new_folder(&path, account, lt).await.unwrap(),
+            WriteEvent
+        )
+    };
+    let _ = std::fs::remove_file(&path);
+    out
+}
+
+/// Re-open a log file with the given bytes the way a restart does (new_folder + load_tree)
+async fn fslog_open(case: &Value) -> Value {
+    use sos_core::events::EventLog;
+    let path = tmp_path("fsopen");
+    let _ = std::fs::remove_file(&path);
+    if case["missing"].as_bool() != Some(true) {
+        std::fs::write(&path, hexbytes(case, "bytes")).unwrap();
+    }
+    let lt = sos_core::events::EventLogType::Folder(uuid_of(7));
+    let out = match FsLog::new_folder(&path, sos_core::AccountId::random(), lt).await {
+        Ok(mut log) => match log.load_tree().await {
+            Ok(_) => json!({"outcome":"ok","opened":true,"leaves":leaves_hex(log.tree())}),
+            Err(e) => json!({"outcome":"ok","opened":false,"detail":e.to_string()}),
+        },
+        Err(e) => json!({"outcome":"ok","opened":false,"detail":e.to_string()}),
+    };
+    let _ = std::fs::remove_file(&path);
+    out
+}
+
 static TMP_COUNTER: std::sync::atomic::AtomicUsize = std::sync::atomic::AtomicUsize::new(0);
 
 fn tmp_path(tag: &str) -> std::path::PathBuf {
@@ -539,6 +654,8 @@ pub async fn run(case: &Value) -> Value {
     let op = case.get("op").and_then(|v| v.as_str()).unwrap_or("");
     match op {
         "compact" => compact_case(case).await,
+        "fslog_script" => fslog_script(case).await,
+        "fslog_open" => fslog_open(case).await,
         "search_history" => search_history(case),
         "merge_patches" => merge_patches_case(case).await,
         "vault_step" => vault_step(case).await,
